@@ -29,6 +29,8 @@ LETTERS = {"D": "Digit", "R": "Roman", "H": "Hiragana", "T": "Katakana", "K": "K
 
 def run(chk):
     w = C.world_for(chk)
+    from . import ctors as _acc
+    _acc.accessors(chk, w, only=["vaporetto::sentence::"])
     for rid, txt in (("R16.1", "normaliser table: one push per char, default identity, idempotent"), ("R16.2", "token stream pipeline and offsets"),
                      ("R16.3", "letter tables agree across tools"), ("R16.4", "from_raw unwrap guard"), ("R16.5", "copy sites order")):
         chk.rule(rid, txt)
